@@ -367,7 +367,7 @@ def gen_fuzzy_case(rng, dtype="float64", pred="fuzzy"):
             rel_t = ["comp", [relv if ci == cj else Fr(rng.choice([0, 1, 3]), 2 ** rng.randint(1, 20)) for ci in range(n_comp)]]
         if which in ("abs", "both"):
             abs_t = ["comp", [absv if ci == cj else rng.choice([Fr(0), absv * 2, absv / 2]) for ci in range(n_comp)]]
-    elif tk < 0.5 and size and not f32 and mode == "abs":
+    elif tk < 0.6 and size and not f32 and mode == "abs":
         # scaled absolute tolerance  base*max:  choose base so that base*max == absv  when that is dyadic
         mx = max(abs(x) for x in a + b)
         base = absv / mx
@@ -888,6 +888,26 @@ def run_c10(ctx):
             reuse_mismatch += 1
             ctx.violation("E4", f"verdict depends on predicate object state: fresh {impls[idx]} vs reused {again}",
                           {k: c[k] for k in ("pred", "a", "b", "rel", "abs")})
+    # the same predicate object evaluated on (a,b), (b,a), (a,a), (a,b) again must reproduce the fresh verdicts
+    for c, g in groups:
+        if c["pred"] == "exact" or "ab" not in g or "ba" not in g:
+            continue
+        tail = tuple(recon_shape(c)[1:])
+        kw = {}
+        r, t = py_tol(c["rel"], tail), py_tol(c["abs"], tail)
+        if r is not None:
+            kw["rel_tol"] = r
+        if t is not None:
+            kw["abs_tol"] = t
+        obj = (P.FuzzyEquality if c["pred"] == "fuzzy" else P.DefaultEquality)(**kw)
+        seq = [("ab", cases[g["ab"]]), ("ba", cases[g["ba"]])] + ([("aa", cases[g["aa"]])] if "aa" in g else []) + [("ab", cases[g["ab"]])]
+        for name, v in seq:
+            again = impl_eval(v, pred_obj=obj)
+            ctx.tie("predicate object reused within a triple")
+            if again != impls[g[name]]:
+                ctx.violation("E4", f"verdict depends on predicate/tolerance object state: fresh {impls[g[name]]} vs reused {again} on {name}",
+                              {k: v[k] for k in ("pred", "a", "b", "rel", "abs")})
+                break
     judge(ctx, cases, impls, models, "c10")
     # the laws themselves (oracle = the statement), evaluated on the implementation
     for c, g in groups:
@@ -955,6 +975,12 @@ def run_scaled_case(ctx, t, comp, dt, shape, a, b, exprs, vals):
     B = {"dtype": dt, "shape": shape, "vals": b}
     tol = P.ScaledTolerance(float(t), use_component_magnitudes=comp)
     got = np.asarray(tol(np_array(A), np_array(B)), dtype=float).reshape(-1)
+    got_swapped = np.asarray(tol(np_array(B), np_array(A)), dtype=float).reshape(-1)
+    got_again = np.asarray(tol(np_array(A), np_array(B)), dtype=float).reshape(-1)
+    if not (np.array_equal(got, got_swapped) and np.array_equal(got, got_again)):
+        ctx.violation("E4", "ScaledTolerance value changes when the same object is evaluated again / with swapped arguments",
+                      {"scaled_tolerance": str(t), "per_component": comp, "a": A, "b": B},
+                      impl=[got.tolist(), got_swapped.tolist(), got_again.tolist()])
     fa, fb = [Fr(x) for x in a], [Fr(x) for x in b]
     if comp:
         want = [t * max(max(abs(x) for i, x in enumerate(fa) if i % n_comp == cc),
